@@ -34,7 +34,8 @@ def lemmas_for(prop):
     return res
 
 
-def run(prop, work):
+def run(prop, work, repo=None):
+    repo = repo or REPO
     todo = lemmas_for(prop)
     if not todo:
         return []
@@ -42,7 +43,7 @@ def run(prop, work):
     shutil.rmtree(scratch, ignore_errors=True)
     os.makedirs(scratch)
     for item in ('src', 'Cargo.toml', 'Cargo.lock', 'README.md'):
-        s = os.path.join(REPO, item)
+        s = os.path.join(repo, item)
         d = os.path.join(scratch, item)
         if os.path.isdir(s):
             shutil.copytree(s, d)
